@@ -184,6 +184,10 @@ def run(pid, tier, seed, replay=None):
             rep.sample({"script": scripts[0].splitlines()[:25]})
         if verdicts:
             rep.sample({"verdict": {k: verdicts[0][k] for k in ("id", "why", "viols")}})
+        if pid == "C15" and not replay:
+            # splice missing: the read/write fallback of iv_fd_pump
+            import check_c17
+            check_c17.run_fallback(tier, seed, sc, rep)
         if pid == "C05" and not replay:
             # the timer store itself: IvTimerHeap model, lock-step and scale runs
             import check_c05heap
